@@ -1050,3 +1050,17 @@ def check_short_refusals_justified(ck, it, func, root, need, what, rule="G-REFUS
         else:
             ck.unknown(rule, func, cons, str(m)[:200])
     return n
+
+
+# ---------------------------------------------------------------------------- no state shared between calls
+def check_no_shared_writes(ck, it, func, rule="A-ALIAS", s0=0):
+    """nothing is stored into an object that was created at module level: such an object is shared by all calls, so one
+    decoded (or constructed) object would change under the next call"""
+    bad = [st for st in it.stores[s0:] if st["oid"] in it.module_oids]
+    cons = "no store reaches a module-level (shared) object"
+    if bad:
+        b = bad[0]
+        ck.refuted(rule, func, cons, f"`{b['text'][:60]}` in {b['func']} stores into .{b['attr']} of an object created at module import; every later call sees and "
+                   "overwrites it", witness={"store": b["where"]})
+    else:
+        ck.proved(rule, func, cons, f"{len(it.stores) - s0} stores, none into a module-level object", nontrivial=False)
